@@ -122,6 +122,7 @@ def plain_files(ctx, reqs, meta):
             for i, c in enumerate(COORDS[:3]):
                 stored[c] = chunk_array(rng, info, c, i)
                 pio.write_chunk(stored[c], "k", c)
+            info_bytes = FileAccessor(base0, **cfg).fetch_file("info")
             new_c = COORDS[3]
             new_arr = chunk_array(rng, info, new_c, 99)
             over_c = COORDS[0]
@@ -139,6 +140,28 @@ def plain_files(ctx, reqs, meta):
                     "file_exists": (lambda: a.file_exists("info"), None, None, None),
                     "file_exists(missing)": (lambda: a.file_exists("nothing"), None, None, None),
                 }
+            # refusals without any injected fault: an existing name, no permission to overwrite
+            for what, fn, tc0 in [
+                    ("store_file(existing, overwrite=False)",
+                     lambda a: a.store_file("info", b"{}", mime_type="application/json"), None),
+                    ("store_chunk(existing, overwrite=False)",
+                     lambda a: a.store_chunk(b"\0" * 7, "k", COORDS[0], mime_type="application/octet-stream",
+                                             overwrite=False), COORDS[0])]:
+                work = os.path.join(tmp, "w")
+                shutil.copytree(base0, work)
+                a = FileAccessor(work, **cfg)
+                desc = {"accessor": "file", "layout": cfg, "operation": what}
+                try:
+                    fn(a)
+                    ctx.oracle_fail("storing over an existing name without permission to overwrite returned normally", desc)
+                except DataAccessError:
+                    pass
+                except Exception as exc:  # noqa
+                    ctx.oracle_fail(f"a refused store surfaced as {type(exc).__name__}", desc)
+                ctx.case(("refused", what, json.dumps(cfg)))
+                check_after(ctx, work, cfg, info, stored, tc0, None, stored.get(tc0) if tc0 else None, desc,
+                            untouched=True, info_bytes=info_bytes)
+                shutil.rmtree(work)
             names = list(ops(None, None).keys())
             for opname in names:
                 # reference run: the trace of primitives and the complete result
@@ -181,7 +204,11 @@ def plain_files(ctx, reqs, meta):
                             ctx.oracle_fail("an operation returned normally although one of its I/O calls failed", desc)
                         elif out != "DataAccessError":
                             ctx.oracle_fail(f"an I/O failure surfaced as {out} instead of a data-access error", desc)
-                        check_after(ctx, work, cfg, info, stored, tc, tarr, told, desc)
+                        before_open = inj.fired and "open" not in [t[0] for t in inj.trace[:-1]] and prim != "write"
+                        keep_info = info_bytes if (opname != "store_file(overwrite)" or
+                                                   (before_open and prim in ("makedirs", "open"))) else None
+                        check_after(ctx, work, cfg, info, stored, tc, tarr, told, desc,
+                                    untouched=before_open and prim in ("makedirs", "open"), info_bytes=keep_info)
                         if tc is not None and inj.fired and dt != "float32":
                             model_store(ctx, reqs, meta, info, work, cfg, tc, tarr, told, isz, full_gz_len,
                                         "fault", prim, out, desc)
@@ -204,7 +231,9 @@ def plain_files(ctx, reqs, meta):
                         ctx.hist("kill_primitive", prim + ":" + mode)
                         if st != 77:
                             ctx.notes.append(f"kill point not reached ({opname} call {k}): exit {st}")
-                        check_after(ctx, work, cfg, info, stored, tc, tarr, told, desc)
+                        check_after(ctx, work, cfg, info, stored, tc, tarr, told, desc,
+                                    untouched=(st == 77 and mode == "kill-before" and prim in ("makedirs", "open")),
+                                    info_bytes=info_bytes if opname != "store_file(overwrite)" else None)
                         if tc is not None and st == 77 and dt != "float32":
                             model_store(ctx, reqs, meta, info, work, cfg, tc, tarr, told, isz, full_gz_len,
                                         "crash", prim, "died", desc)
@@ -218,9 +247,19 @@ def chunk_file(base, cfg, c):
     return os.path.join(base, name + (".gz" if cfg["gzip"] else ""))
 
 
-def check_after(ctx, work, cfg, info, stored, tc, tarr, told, desc):
-    """fresh accessor: every other chunk unchanged; the target is old, new, or an error"""
+def check_after(ctx, work, cfg, info, stored, tc, tarr, told, desc, untouched=False, info_bytes=None):
+    """fresh accessor: every other chunk unchanged; the target is old, new, or an error.
+    `untouched`: the failure / interruption happened before the target was opened, so whatever was
+    stored under that name earlier must still be there, unchanged"""
     pio = fresh_reader(work, cfg, info)
+    if info_bytes is not None:
+        try:
+            now = pio.accessor.fetch_file("info")
+        except Exception as exc:  # noqa
+            now = type(exc).__name__
+        if now != info_bytes:
+            ctx.oracle_fail("the info file stored earlier is gone or changed after a failed/interrupted operation "
+                            "that never opened it for writing", dict(desc, now=str(now)[:60]))
     for c, arr in stored.items():
         cls, got = classify_read(pio, "k", c)
         if c == tc:
@@ -232,6 +271,9 @@ def check_after(ctx, work, cfg, info, stored, tc, tarr, told, desc):
         return
     cls, got = classify_read(pio, "k", tc)
     ctx.hist("target_after", cls)
+    if untouched and told is not None and not (cls == "ok" and np.array_equal(got, told)):
+        ctx.oracle_fail("a chunk stored earlier is gone or changed although the failed/interrupted store never "
+                        "opened its file", dict(desc, chunk=list(tc), now=cls))
     if cls == "ok":
         if not (np.array_equal(got, tarr) or (told is not None and np.array_equal(got, told))):
             ctx.oracle_fail("after a failed/interrupted store a reader decodes voxel values that are neither "
